@@ -28,6 +28,7 @@ package sessx
 // transition problems reported) after a fault-free cycle, "--" otherwise.
 
 import (
+	"context"
 	"fmt"
 	"os"
 	"path/filepath"
@@ -343,6 +344,12 @@ func (r *Runner) Run(idx int, g *Gen, h *History) (res Result) {
 		if st.Kind != 'n' {
 			st.ObsA, st.ObsB = curA.tree, curB.tree
 		}
+		stillHalted := true
+		if strings.HasPrefix(status, "halt-") {
+			// A halted session stays halted: a further flush request (one plain
+			// call, no retry) must be refused.
+			stillHalted = s.env.Mgr.Flush(context.Background(), s.sel, "", false) != nil
+		}
 		if status != "run" {
 			// Halted, failed or cancelled loops do not serve flush requests:
 			// restart the loop the way a user would.
@@ -373,7 +380,7 @@ func (r *Runner) Run(idx int, g *Gen, h *History) (res Result) {
 		// The oracles.
 		or.cycle(&cycleObs{
 			step: st, status: status, beforeA: beforeA, beforeB: beforeB, preA: preA, preB: preB, postA: curA, postB: curB,
-			archive: archive, archErr: archErr, archTree: archTree, conflicts: conflicts, state: state,
+			archive: archive, archErr: archErr, archTree: archTree, conflicts: conflicts, state: state, stillHalted: stillHalted,
 		})
 		// Statistics.
 		res.count("cycles")
